@@ -277,6 +277,27 @@ def run_lowering(ctx):
                                                      "equivalent, wf_model, wf_graph, sizes)",
                                    "call": c.record(), "verdict": r})
         ctx.distinct.add("lower|" + c.desc)
+    # the same dot calls on the default numpy backend: operands reshaped to their leaf axes, np.einsum with generated subscripts, reshape
+    ecaps = common.pmap(_capture_graph, dcases)
+    lines, owners = [], []
+    stats.update({"einsum_dot_calls": len(dcases), "einsum_dot_graph_equals_model": 0})
+    for c, cap in zip(dcases, ecaps):
+        if cap[0] == "term":
+            names = gencalls.Names()
+            lines.append(sx(["lower_einsum_dot", [gencalls.w_dims(c.ins[0], names), gencalls.w_dims(c.ins[1], names), gencalls.w_dims(c.outs[0], names), cap[1]]]))
+            owners.append(c)
+        elif cap[0] == "nograph" and cap[1] == 0:
+            stats["served_from_cache_no_trace"] = stats.get("served_from_cache_no_trace", 0) + 1
+        else:
+            ctx.tie_breaks.append({"correspondence": "lowering model vs traced graph: graph not captured as a term", "call": c.record(), "detail": str(cap[:2])})
+    for c, r in zip(owners, ctx.model.batch(lines)):
+        if isinstance(r, list) and r[0] == "lower" and r[1:5] == ["T", "T", "T", "T"]:
+            stats["einsum_dot_graph_equals_model"] += 1
+        else:
+            ctx.tie_breaks.append({"correspondence": "Model/Lower.v: the graph einx built for this dot on the numpy backend is not equivalent to the model's term "
+                                                     "(operands reshaped to leaf axes, einsum with the model's subscript string, reshape; verdict: in_scope, "
+                                                     "equivalent, wf_model, wf_graph, sizes)",
+                                   "call": c.record(), "verdict": r})
     return stats
 
 
